@@ -6,6 +6,7 @@ no random choice of its own: interleaving freedom enters through the seeded
 durations of simulated I/O and handler pauses (DESIGN 2.2).
 """
 import asyncio
+import sys
 import asyncio.base_events
 import heapq
 
@@ -127,6 +128,11 @@ class SimLoop(asyncio.base_events.BaseEventLoop):
         self._thread_id = threading.get_ident()
         old = asyncio.events._get_running_loop()
         asyncio.events._set_running_loop(self)
+        # as run_forever() does: abandoned async generators are closed by a
+        # task of this loop (their cleanup code runs later, asynchronously)
+        old_agen = sys.get_asyncgen_hooks()
+        sys.set_asyncgen_hooks(firstiter=self._asyncgen_firstiter_hook,
+                               finalizer=self._asyncgen_finalizer_hook)
         try:
             steps = 0
             quiet_since = None
@@ -153,6 +159,7 @@ class SimLoop(asyncio.base_events.BaseEventLoop):
         finally:
             self._thread_id = None
             asyncio.events._set_running_loop(old)
+            sys.set_asyncgen_hooks(*old_agen)
 
     def advance(self, dt, max_steps=200000):
         """Run for dt virtual seconds."""
